@@ -6,7 +6,7 @@ import "encoding/json"
 
 var numPalette = []float64{0, 1, -1, 2, 3, 5, 10, 0.5, 1.5, 2.5, -2.5, 100, 1e9, 7, 0.1, 0.3}
 var strPalette = []string{"", "a", "ab", "abc", "abcd", "hello", "x1", "A-1", "héllo", "日本", "𝄞x", "a b", "2020-01-02", "Zm9v", "12", "é", "\\u0041", "\\x{0041}", "\\A"}
-var keyPalette = []string{"a", "b", "c", "id", "name"}
+var keyPalette = []string{"a", "b", "c", "id", "name", "x-id"}
 var patPalette = []string{"^a", "^[a-z]+$", "b$", "^\\d+$", "[", "^.{2,3}$", "^\\u0061\\u0062+$", "^[\\u0061\\u0062]+$", "^\\u0041-\\u0042$", "^h\\u00e9llo$", "^[\\u00e0-\\u00ff]$", "^\\\\u0041$"}
 var typeNames = []string{"string", "number", "integer", "boolean", "array", "object"}
 
